@@ -1,3 +1,4 @@
+import KeepVerif.Gen.C20
 /-!
 # C20 model: connection handshake (pkg/net/security/handshake/connection_handshake.go)
 
@@ -60,6 +61,10 @@ inductive Outcome (C : Type)
   | iFail (a1 : Act1) (a2 : Act2 C) (e : Err)
   | fFail (a1 : Act1) (a2 : Act2 C) (a3 : Act3 C) (e : Err)
   | done (a1 : Act1) (a2 : Act2 C) (a3 : Act3 C)
+  /-- the delivered act 1 / 2 / 3 could not be unmarshalled (wire-level alteration) -/
+  | u1Fail (a1 : Act1)
+  | u2Fail (a1 : Act1) (a2 : Act2 C)
+  | u3Fail (a1 : Act1) (a2 : Act2 C) (a3 : Act3 C)
   deriving DecidableEq, Repr
 
 /-- One full run: initiator `(n1, p1)`, responder `(n2, p2)`, network `net`. -/
@@ -94,6 +99,66 @@ def expectedComplete (H : Nat → Nat → C) (n1 : Nat) (p1 : String) (n2 : Nat)
 def holds (H : Nat → Nat → C) (n1 : Nat) (p1 : String) (n2 : Nat) (p2 : String) (net : Net C)
     (implCompleted : Bool) : Bool :=
   implCompleted == expectedComplete H n1 p1 n2 p2 net
+
+/-! ## Wire level: an altered act may not even unmarshal
+
+`Act?Message.Unmarshal` (marshaling.go) rejects a nonce field that is not `nonceByteLength` bytes and
+a challenge field that is not `challengeByteLength` bytes long.  The network is therefore a triple of
+*partial* functions: `none` = the delivered bytes do not unmarshal. -/
+
+/-- the length rules of `Unmarshal`; `none` = the field was not touched on the wire -/
+def wireOk (nonceLen chalLen : Option Nat) : Bool :=
+  nonceLen.all (· == Gen.C20.nonceByteLength) && chalLen.all (· == Gen.C20.challengeByteLength)
+
+structure WNet (C : Type) where
+  f1 : Act1 → Option Act1
+  f2 : Act2 C → Option (Act2 C)
+  f3 : Act3 C → Option (Act3 C)
+
+/-- every act unmarshals: the wire network of a message-level network -/
+def Net.toW (net : Net C) : WNet C := ⟨fun m => some (net.f1 m), fun m => some (net.f2 m), fun m => some (net.f3 m)⟩
+
+/-- One full run through Marshal → network → Unmarshal (what `authenticated_connection.go` and the
+    harness do). -/
+def runWire (H : Nat → Nat → C) (n1 : Nat) (p1 : String) (n2 : Nat) (p2 : String) (w : WNet C) :
+    Outcome C :=
+  match w.f1 ⟨n1, p1⟩ with
+  | none => .u1Fail ⟨n1, p1⟩
+  | some m1 =>
+    match answer H m1 n2 p2 with
+    | .error e => .rFail ⟨n1, p1⟩ e
+    | .ok a2 =>
+      match w.f2 a2 with
+      | none => .u2Fail ⟨n1, p1⟩ a2
+      | some m2 =>
+        match initiatorNext H n1 p1 m2 with
+        | .error e => .iFail ⟨n1, p1⟩ a2 e
+        | .ok a3 =>
+          match w.f3 a3 with
+          | none => .u3Fail ⟨n1, p1⟩ a2 a3
+          | some m3 =>
+            match finalize a2.challenge m3 with
+            | .error e => .fFail ⟨n1, p1⟩ a2 a3 e
+            | .ok () => .done ⟨n1, p1⟩ a2 a3
+
+/-- closed formula for the wire level: all three acts unmarshal and the four conditions hold -/
+def expectedCompleteW (H : Nat → Nat → C) (n1 : Nat) (p1 : String) (n2 : Nat) (p2 : String)
+    (w : WNet C) : Bool :=
+  match w.f1 ⟨n1, p1⟩ with
+  | none => false
+  | some m1 =>
+    match w.f2 ⟨n2, H m1.nonce n2, p2⟩ with
+    | none => false
+    | some m2 =>
+      match w.f3 ⟨m2.challenge⟩ with
+      | none => false
+      | some m3 =>
+        decide (m1.proto = p2) && decide (m2.proto = p1) && decide (m2.challenge = H n1 m2.nonce)
+          && decide (m3.challenge = H m1.nonce n2)
+
+def holdsW (H : Nat → Nat → C) (n1 : Nat) (p1 : String) (n2 : Nat) (p2 : String) (w : WNet C)
+    (implCompleted : Bool) : Bool :=
+  implCompleted == expectedCompleteW H n1 p1 n2 p2 w
 
 /-- A-hash, tested on the values the real function produced: distinct pairs ↦ distinct values. -/
 def tableInjective (tab : List ((Nat × Nat) × C)) : Bool :=
